@@ -109,7 +109,7 @@ prop('C13', 'operations are total',
      'Panics inside std leaves other than the listed entry points; that all other guarantees continue to hold after the wrap beyond re-running every rule on that path.')
 
 
-_ORD_C01 = {'cell-rmw', 'cell-confirm-load', 'cell-fallback-load', 'debt-fast-publish', 'control-intent', 'head-traverse-load', 'head-publish'}
+_ORD_C01 = {'cell-rmw', 'cell-confirm-load', 'cell-fallback-load', 'debt-fast-publish', 'control-intent', 'control-helper-load', 'head-traverse-load', 'head-publish'}
 
 
 def _ord_c01(fx, col):
@@ -182,14 +182,34 @@ prop('C18', 'panics in user code leave the container consistent',
      'That the container still holds a legitimately stored value as a run-time fact; only that no write to the cell or a slot is left half-done when user code runs.')
 
 
+def _help_leaves_foreign(fx, col):
+    """C12, the writer's side: a writer that finds a transaction on ANOTHER container in a node leaves that node without waiting for
+    it. The retry loop of the helper goes round only because something changed (the classes admitted for C09); a loop that also goes
+    round on "address not mine, control unchanged" makes every write wait for the readers of every other container."""
+    cx = O.ctx(fx)
+    bs = [b for b in fx.lib.bodies if b.fname == 'arc_swap::debt::helping::Slots::help']
+    if not col.anchor('LOOP-CLASS', 'helping::Slots::help', len(bs) == 1):
+        return
+    b = bs[0]
+    n = 0
+    for h, blocks, tails in b.loops():
+        for t in tails:
+            n += 1
+            cls, why = P.classify_back_edge(cx, b, t, h)
+            col.add('LOOP-CLASS', '%s|loop@%s' % (b.fname, cls or 'unclassified'), cls in P.ADMITTED_WRITER, ('%s: %s' % (cls, why)) if cls else why, b.loc(h))
+    col.floor('LOOP-CLASS', 'retry loops of the helper', n, 1)
+
+
 prop('C12', 'containers are isolated',
-     [I.rule_addr_guard, I.rule_addr_before_gen, I.rule_own_storage, O.rule_pay_cas, O.rule_mp, T.rule_node_stable, R.rule_confirmed_origin, K.rule_kind_disjoint],
+     [I.rule_addr_guard, I.rule_addr_before_gen, I.rule_own_storage, O.rule_pay_cas, O.rule_mp, T.rule_node_stable, R.rule_confirmed_origin, K.rule_kind_disjoint, _help_leaves_foreign],
      'Decides: a helper produces and hands over a replacement only when the reader\'s published address, re-read in the '
      'same retry iteration, equals the address of the cell being written, and the exchange expects exactly the '
      'generation that was matched (ADDR-GUARD, GEN-REVALIDATE); the reader publishes the address before the generation '
      '(ADDR-BEFORE-GEN); every API method hands the strategy its own cell and strategy, and the replacement closure loads '
      'from that same cell (OWN-STORAGE); debts are keyed by pointer value and cleared only by the pointer-keyed CAS '
-     '(PAY-CAS); each hand-over envelope has one owner after the exchange (MP, their-space-before-exchange).',
+     '(PAY-CAS); each hand-over envelope has one owner after the exchange (MP, their-space-before-exchange); the helper\'s retry '
+     'loop goes round only when the control word changed, so a writer leaves a node whose transaction belongs to another container '
+     'at once (LOOP-CLASS on helping::Slots::help).',
      'Behaviour of interleavings across containers is NOT decided.')
 
 
@@ -213,7 +233,7 @@ prop('C11', 'thread churn is safe and bounded',
      'The numeric bound (at most peak-threads nodes) and exclusivity of a node under all interleavings are NOT decided; the rules are the code-shape reasons for both.')
 
 
-_ORD_SEQ = {'cell-rmw', 'cell-confirm-load', 'cell-fallback-load', 'debt-fast-publish', 'control-intent', 'control-confirm', 'head-traverse-load', 'head-publish'}
+_ORD_SEQ = {'cell-rmw', 'cell-confirm-load', 'cell-fallback-load', 'debt-fast-publish', 'control-intent', 'control-helper-load', 'control-confirm', 'head-traverse-load', 'head-publish'}
 
 
 def _ord_seq(fx, col):
@@ -342,12 +362,14 @@ prop('C19', 'thread-safety markers follow the pointee',
 
 prop('C10', 'guards are self-contained snapshots',
      [TL.rule_witnesses, A.rule_guard_fields, P.rule_never_freed, R.rule_claim_empty, O.rule_inuse_fsm, R.rule_slot_closed, A.rule_access_shape,
-      L.rule_ledger, _inc_protected, R.rule_cover_all, T.rule_cooldown_owned],
+      L.rule_ledger, _inc_protected, R.rule_cover_all, T.rule_cooldown_owned, _ord_c01],
      'Decides: a Guard / full value / Arc-backed cache carries no borrow of the container and is \'static + Send when the '
      'pointer is (compile-pass witnesses; the borrow-checker twins show that reference-backed maps and caches cannot outlive '
      'it) (NO-BORROW); the &\'static Debt inside a guard stays valid after the creating thread exits because nodes are never '
      'freed (NEVER-FREED) and the writers\' pay walk visits every node whatever its owner state (COVER-ALL); a new owner of a '
      'recycled node claims only empty slots (CLAIM-EMPTY, INUSE-FSM); beyond the fast slots the fallback returns an owning '
      'guard and frees the helping slot (SLOT-CLOSED); a guard never re-reads the container (DEREF-PURE); Drop / into_inner '
-     'release exactly what is held and take their count while still protected (LEDGER, INC-PROTECTED).',
+     'release exactly what is held and take their count while still protected (LEDGER, INC-PROTECTED); the writer that replaces '
+     'the value a guard borrows sees the guard\'s debt: both halves of the store-buffering pair keep their SeqCst floor (ORD, the '
+     'Dekker roles).',
      'The orders of guard drop / container drop / thread exit / node reuse as executions are NOT explored.')
